@@ -106,6 +106,21 @@ def noncanonical(rng, n):
     return out
 
 
+def big_items(rng):
+    """control messages carrying AVPs whose length needs both high bits of the 10-bit field, and totals needing the high octet of Length"""
+    out = []
+    for n in (249, 250, 505, 506, 507, 600, 767, 768, 1016, 1017):
+        for t in (7, 8, 11, 37):
+            p = rutf8(rng, n) if t == 8 else rbytes(rng, n)
+            body = mt_record(rng) + avp_rec(t, p, m=rng.choice([0, 1]), rsv=rng.choice([0, 5])) + good_record(rng, 9)
+            out.append(('big_avp_%d' % n, ctrl_bytes(body, 0x1320 | rng.choice([0, 0, 1 << 13]))))
+        out.append(('big_hidden_%d' % n, ctrl_bytes(mt_record(rng) + avp_rec(rng.randrange(60), rbytes(rng, n), h=1) + good_record(rng, 10))))
+    body = mt_record(rng) + b''.join(avp_rec(7, rbytes(rng, rng.randrange(900, 1018))) for _ in range(40))
+    out.append(('big_msg', ctrl_bytes(body)))
+    out.append(('big_data', data_bytes(rbytes(rng, 40000), True, True, False, True)))
+    return out
+
+
 def dec_corpus(rng, budget, thorough=False):
     """-> list of (tag, octets): mostly-valid structured inputs plus a malformed stream"""
     out = list(D_INPUTS)
@@ -119,6 +134,7 @@ def dec_corpus(rng, budget, thorough=False):
         for p in all_prefixes(rand_valid_data_bytes(rng)):
             out.append(('prefix_d', p))
     out += noncanonical(rng, budget // 12)
+    out += big_items(rng)
     while len(out) < budget:
         c = rng.random()
         if c < 0.25:
